@@ -122,7 +122,7 @@ func (w *btWorld) CompareState() string {
 			return fmt.Sprintf("table %s:\n   got  %s\n   want %s", name, g, wn)
 		}
 		// the keys the table reports as stored (SampleRowKeys with every sampling decision answered "yes") are
-		// exactly the rows that have cells: a row emptied by deletes, a filter, a dropped family or a GC pass is gone
+		// keys of rows that have cells: a row emptied by deletes, a dropped family or a GC pass is gone
 		wantRows := w.model.TableRows(name)
 		coins := make([]bool, len(wantRows)+8)
 		for i := range coins {
@@ -135,15 +135,14 @@ func (w *btWorld) CompareState() string {
 		if gs.Code != "OK" {
 			return fmt.Sprintf("SampleRowKeys of %s: %s %s", name, gs.Code, gs.Msg)
 		}
-		var gk, wk []string
-		for _, sm := range gs.Samples {
-			gk = append(gk, string(sm.Key))
-		}
+		var wk []string
 		for _, r := range wantRows {
 			wk = append(wk, string(r.Key))
 		}
-		if fmt.Sprintf("%q", gk) != fmt.Sprintf("%q", wk) {
-			return fmt.Sprintf("table %s: SampleRowKeys (every row sampled) reports the keys %q, the rows with cells are %q", name, gk, wk)
+		// (what the statement of C03 says about samples, against the rows that exist now: an ascending subsequence
+		// of their keys that ends with the last one - not more, so that another sampling strategy is not an alarm)
+		if bad := checkSamples(wk, gs.Samples); bad != "" {
+			return fmt.Sprintf("table %s: SampleRowKeys (every sampling decision answered yes) reports %v, the rows with cells are %q: %s", name, gs.Samples, wk, bad)
 		}
 		gt := w.drv.Apply(&bt.Op{Kind: "GetTable", Table: name})
 		wt := w.model.Apply(&bt.Op{Kind: "GetTable", Table: name}, nil, 0)
